@@ -137,6 +137,7 @@ func c20Negate(c *core.Ctx, leaves []amtLeaf) {
 	om := core.NewOriginMap(info, fd.Decl.Body, recv, res)
 	ld := core.NewLocalDefs(info, fd.Decl.Body)
 	negated := map[string]bool{}
+	skipped := map[string]string{}
 	ast.Inspect(fd.Decl.Body, func(n ast.Node) bool {
 		as, ok := n.(*ast.AssignStmt)
 		if !ok || len(as.Lhs) != 1 || len(as.Rhs) != 1 {
@@ -153,13 +154,20 @@ func c20Negate(c *core.Ctx, leaves []amtLeaf) {
 		}
 		ro, ok := om.Of(core.RecvExpr(call))
 		if ok && ro.Path == lo.Path {
-			negated[lo.Path] = true
+			if why := everyIteration(p, info, fd.Decl.Body, as, nilTestOnly(info)); why != "" {
+				skipped[lo.Path] = why
+			} else {
+				negated[lo.Path] = true
+			}
 		}
 		return true
 	})
 	for _, l := range leaves {
-		c.Ob("C20-R1", "tax.Total."+l.Path, l.Field.Pos(), negated[l.Path],
-			fmt.Sprintf("%s never assigns to %s the negation of the same amount: a negated summary keeps this amount's sign", fd.Name(), l.Path))
+		msg := fmt.Sprintf("%s never assigns to %s the negation of the same amount: a negated summary keeps this amount's sign", fd.Name(), l.Path)
+		if w, ok := skipped[l.Path]; ok && !negated[l.Path] {
+			msg = fmt.Sprintf("%s negates %s only for some rows: %s", fd.Name(), l.Path, w)
+		}
+		c.Ob("C20-R1", "tax.Total."+l.Path, l.Field.Pos(), negated[l.Path], msg)
 	}
 }
 
@@ -203,6 +211,10 @@ func c20Merge(c *core.Ctx, leaves []amtLeaf) {
 			xo, ok1 := om.Of(x)
 			yo, ok2 := om.Of(call.Args[0])
 			if ok1 && ok2 && xo.Root == res && yo.Root == op && xo.Path == lo.Path && yo.Path == lo.Path {
+				if why := everyIteration(p, info, fd.Decl.Body, as, nilTestOnly(info)); why != "" {
+					c.Ob("C20-R2", "tax.Total."+lo.Path+"#every-row", as.Pos(), false, "the addition of "+lo.Path+" is skipped for some rows: "+why)
+					return true
+				}
 				added[lo.Path] = true
 				if mp {
 					matched[lo.Path] = true
@@ -528,6 +540,10 @@ func c20Payment(c *core.Ctx) {
 			c.Ob("C20-R5", fd.Name()+"#accumulators", fd.Decl.Pos(), false, "no amount accumulation found")
 		}
 		for i, a := range accs {
+			if why := everyIteration(p, fd.Pkg.TypesInfo, fd.Decl.Body, a.Assign, nilTestOnly(fd.Pkg.TypesInfo)); why != "" {
+				c.Ob("C20-R5", fmt.Sprintf("%s#%s%d:%s#every-line", fd.Name(), strings.ToLower(a.Op), i+1, types.ExprString(a.Dest)), a.Assign.Pos(), false,
+					"the accumulation is not executed for every line: "+why)
+			}
 			c.Ob("C20-R5", fmt.Sprintf("%s#%s%d:%s", fd.Name(), strings.ToLower(a.Op), i+1, types.ExprString(a.Dest)), a.Assign.Pos(), a.Matched,
 				fmt.Sprintf("%s = %s.%s(%s) without first raising the accumulator's precision to the addend's: the addend is rounded to the accumulator's precision and the total depends on which line comes first", types.ExprString(a.Dest), types.ExprString(a.Dest), a.Op, types.ExprString(a.Addend)))
 		}
